@@ -59,6 +59,8 @@ def label_roles(spec, mods):
             nins[b["n"]] = len(b["i"])
             order.append(b)
     for m in mods:
+        if m["op"] == "scope":
+            continue
         n = nins[m["b"]]
         e = edits.setdefault(m["b"], set())
         if m["op"] == "ins":
